@@ -16,6 +16,7 @@ type Generator struct {
 	plugin       *protogen.Plugin
 	generateMock bool
 	globalUnwrap *GlobalUnwrapInfo // Global unwrap info collected from all files
+	mockVisiting map[string]bool   // messages on the current mock-assignment recursion stack
 }
 
 // Options configures the generator.
